@@ -181,9 +181,16 @@ def h_close_join_twin(ev: List[int]) -> bool:
 # ---------------------------------------------------------------------------
 # C08, parent side: terminate()
 
-def _terminate(kind, nproc, ev, want):
+def _terminate(kind, nproc, ev, want, replaced=False):
     w = W.World()
     p = w.make_pool(nproc, lost_worker_timeout=LWT, keep_finalizer=True)
+    if replaced:
+        # one worker of the initial set has gone and been replaced before terminate(): the replacement is terminated like any other
+        w.w_exit(p._pool[0], 0)
+        w.tick()
+        if len(p._pool) != nproc:
+            p._terminate.cancel()
+            raise Prune()
     try:
         return _terminate_body(w, p, kind, nproc, ev, want)
     finally:
@@ -290,7 +297,7 @@ def h_terminate(ev: List[int]) -> bool:
     post: _
     """
     try:
-        return _terminate(KINDS[PART % 4], 1 + (PART // 4) % 2, ev, False)
+        return _terminate(KINDS[PART % 4], 1 + (PART // 4) % 2, ev, False, (PART // 8) % 2 == 1)
     except Prune:
         return True
 
@@ -301,7 +308,7 @@ def h_terminate_twin(ev: List[int]) -> bool:
     post: _
     """
     try:
-        return _terminate(KINDS[PART % 4], 1 + (PART // 4) % 2, ev, True)
+        return _terminate(KINDS[PART % 4], 1 + (PART // 4) % 2, ev, True, (PART // 8) % 2 == 1)
     except Prune:
         return True
 
@@ -678,3 +685,45 @@ def h_terminate_threaded_twin(code: int) -> bool:
         return _terminate_threaded(code, True)
     except Prune:
         return True
+
+
+# ---------------------------------------------------------------------------
+# C08: the signal terminate() sends is the termination signal the workers hook.  A deployment may remap it
+# (REMAP_SIGTERM=SIGQUIT: workers then hook SIGQUIT and IGNORE SIGTERM), so the real Popen.terminate must send
+# common.TERM_SIGNAL - checked over a recording os.kill with the module-level signal rebound as the remapping does at import.
+
+def h_terminate_signal(remap: bool, gone: bool) -> bool:
+    """
+    pre: True
+    post: _
+    """
+    import signal as _signal
+    import billiard.popen_fork as pf
+    import billiard.common as bc
+    want = _signal.SIGQUIT if remap else _signal.SIGTERM
+    kills = []
+
+    class FakeOS:
+        def __getattr__(self, name):
+            import os as _o
+            return getattr(_o, name)
+
+        def kill(self, pid, sig):
+            kills.append((pid, sig))
+            if gone:
+                raise OSError(3, 'No such process')
+    saved = (pf.os, pf.TERM_SIGNAL, bc.TERM_SIGNAL)
+    pf.os = FakeOS()
+    pf.TERM_SIGNAL = want
+    bc.TERM_SIGNAL = want
+    try:
+        po = pf.Popen.__new__(pf.Popen)
+        po.pid = 4242
+        po.returncode = None
+        po.sentinel = None
+        po.terminate()
+    finally:
+        pf.os, pf.TERM_SIGNAL, bc.TERM_SIGNAL = saved
+    if kills != [(4242, want)]:
+        return fail('C08:terminate-sends-a-signal-other-than-the-termination-signal-the-workers-hook' + (':remapped' if remap else ''))
+    return True
